@@ -341,3 +341,113 @@ theorem ch_init_inv : ChInv chInit :=
   ⟨by intro h; simp [chInit] at h, Or.inr (Or.inl ⟨rfl, rfl⟩)⟩
 
 end Comb
+
+namespace Comb
+
+/-! ## inline hand-over (`seqInlineM`) -/
+
+theorem seq_inline_step_inv {α} (kind : SeqKind) (items : Nat → Item) (st : St SeqSt) (e : Ev α) (h : SInv st) :
+    SInv (step (seqInlineM (α := α) kind items) st e).1 := by
+  cases e with
+  | dispose => exact seq_step_inv (α := α) kind items st .dispose h
+  | tick => exact seq_step_inv (α := α) kind items st .tick h
+  | src k n =>
+    refine ⟨step_WF _ st _ h.wf, ?_⟩
+    by_cases hk : k ∈ st.p.live
+    · have hnd := not_done_of_live h.wf hk
+      rcases h.one with h1 | ⟨h1, h2, h3⟩
+      · simp [h1] at hk
+      · have hk' : k = st.s.idx - 1 := by simpa [h1] using hk
+        subst hk'
+        have hne : ¬ (st.s.idx - 1 = st.s.idx) := by omega
+        cases n with
+        | next v =>
+          right
+          simp [step, hk, seqInlineM, seqInlineHandler, seqHandler, seqTick, Plumb.acts, Plumb.act, hnd, Notif.isTerminal, h1, h2, h3]
+        | error er =>
+          cases kind with
+          | concat =>
+            left
+            simp [step, hk, seqInlineM, seqInlineHandler, seqHandler, seqTick, Plumb.acts, Plumb.act, hnd, Notif.isTerminal, h1, h3]
+          | «catch» =>
+            cases hi : items st.s.idx with
+            | src =>
+              right
+              simp [step, hk, seqInlineM, seqInlineHandler, seqHandler, seqTick, hi, Plumb.acts, Plumb.act, hnd, Notif.isTerminal, h1, hne]
+            | stop =>
+              left
+              simp [step, hk, seqInlineM, seqInlineHandler, seqHandler, seqTick, hi, Plumb.acts, Plumb.act, hnd, Notif.isTerminal, h1]
+            | raise ex =>
+              left
+              simp [step, hk, seqInlineM, seqInlineHandler, seqHandler, seqTick, hi, Plumb.acts, Plumb.act, hnd, Notif.isTerminal, h1]
+          | oern =>
+            cases hi : items st.s.idx with
+            | src =>
+              right
+              simp [step, hk, seqInlineM, seqInlineHandler, seqHandler, seqTick, hi, Plumb.acts, Plumb.act, hnd, Notif.isTerminal, h1, hne]
+            | stop =>
+              left
+              cases hl : st.s.lastErr <;>
+                simp [step, hk, seqInlineM, seqInlineHandler, seqHandler, seqTick, hi, hl, Plumb.acts, Plumb.act, hnd, Notif.isTerminal, h1]
+            | raise ex =>
+              left
+              simp [step, hk, seqInlineM, seqInlineHandler, seqHandler, seqTick, hi, Plumb.acts, Plumb.act, hnd, Notif.isTerminal, h1]
+        | completed =>
+          cases kind with
+          | «catch» =>
+            left
+            simp [step, hk, seqInlineM, seqInlineHandler, seqHandler, seqTick, Plumb.acts, Plumb.act, hnd, Notif.isTerminal, h1, h3]
+          | concat =>
+            cases hi : items st.s.idx with
+            | src =>
+              right
+              simp [step, hk, seqInlineM, seqInlineHandler, seqHandler, seqTick, hi, Plumb.acts, Plumb.act, hnd, Notif.isTerminal, h1, hne]
+            | stop =>
+              left
+              cases hl : st.s.lastErr <;>
+                simp [step, hk, seqInlineM, seqInlineHandler, seqHandler, seqTick, hi, hl, Plumb.acts, Plumb.act, hnd, Notif.isTerminal, h1]
+            | raise ex =>
+              left
+              simp [step, hk, seqInlineM, seqInlineHandler, seqHandler, seqTick, hi, Plumb.acts, Plumb.act, hnd, Notif.isTerminal, h1]
+          | oern =>
+            cases hi : items st.s.idx with
+            | src =>
+              right
+              simp [step, hk, seqInlineM, seqInlineHandler, seqHandler, seqTick, hi, Plumb.acts, Plumb.act, hnd, Notif.isTerminal, h1, hne]
+            | stop =>
+              left
+              cases hl : st.s.lastErr <;>
+                simp [step, hk, seqInlineM, seqInlineHandler, seqHandler, seqTick, hi, hl, Plumb.acts, Plumb.act, hnd, Notif.isTerminal, h1]
+            | raise ex =>
+              left
+              simp [step, hk, seqInlineM, seqInlineHandler, seqHandler, seqTick, hi, Plumb.acts, Plumb.act, hnd, Notif.isTerminal, h1]
+    · rw [step_src_not_live _ _ _ _ hk]; exact h.one
+
+theorem seq_inline_final_inv {α} (kind : SeqKind) (items : Nat → Item) (es : List (Ev α)) : ∀ st, SInv st →
+    SInv (final (seqInlineM (α := α) kind items) st es) := by
+  induction es with
+  | nil => intro st h; exact h
+  | cons e es ih => intro st h; exact ih _ (seq_inline_step_inv kind items st e h)
+
+theorem seq_inline_step_out {α} (kind : SeqKind) (items : Nat → Item) (st : St SeqSt) (e : Ev α) (h : st.p.WF) :
+    outVals (step (seqInlineM (α := α) kind items) st e).2 = (accOne st e).filterMap nextOf := by
+  cases e with
+  | dispose => exact seq_step_out (α := α) kind items st .dispose h
+  | tick => exact seq_step_out (α := α) kind items st .tick h
+  | src k n =>
+    by_cases hk : k ∈ st.p.live
+    · rw [outVals_step_src _ _ _ _ h hk]
+      simp only [accOne, hk, if_true, seqInlineM, seqInlineHandler]
+      cases n with
+      | next v =>
+        cases hp : st.s.pending <;> cases hi : items st.s.idx <;> cases kind <;> cases hl : st.s.lastErr <;>
+          simp [seqHandler, seqTick, hp, hi, hl, actEmits, cut, nextVals, nextOf, Notif.isTerminal]
+      | error er =>
+        cases hi : items st.s.idx <;> cases kind <;> cases hl : st.s.lastErr <;> cases hp : st.s.pending <;>
+          simp [seqHandler, seqTick, hp, hi, hl, actEmits, cut, nextVals, nextOf, Notif.isTerminal]
+      | completed =>
+        cases hi : items st.s.idx <;> cases kind <;> cases hl : st.s.lastErr <;> cases hp : st.s.pending <;>
+          simp [seqHandler, seqTick, hp, hi, hl, actEmits, cut, nextVals, nextOf, Notif.isTerminal]
+    · simp [step_src_not_live _ _ _ _ hk, accOne, hk]
+
+end Comb
